@@ -1920,6 +1920,13 @@ class Compiler:
                     value=subscript(str(name), load(contexts[0]), ast.Load())
                 ))
 
+        # Unpacking an item into several names may fail in any
+        # iteration; the failure belongs to the repeat expression (not
+        # to whatever the loop body evaluated last).
+        token = getattr(node.expression, "value", None)
+        if len(node.names) > 1 and isinstance(token, Token):
+            assignment.insert(0, TokenRef(token.strip()))
+
         # Make repeat assignment in outer loop
         names = node.names
         local = node.local
